@@ -25,6 +25,13 @@ pub struct Partial {
     pub rules: u64,
 }
 
+pub struct ModelEntry {
+    pub text: String,
+    pub spec: GrammarSpec,
+    pub types_hash: String,
+    pub types_text: String,
+}
+
 pub struct Args {
     pub models: String,
     pub prop: String,
@@ -60,12 +67,14 @@ pub fn main(table: &[GrammarEntry]) {
         replay: arg(&argv, "--replay"),
     };
     let models: Vec<serde_json::Value> = serde_json::from_str(&std::fs::read_to_string(&args.models).expect("models.json")).unwrap();
-    let mut by_id: HashMap<String, (String, GrammarSpec)> = HashMap::new();
+    let mut by_id: HashMap<String, ModelEntry> = HashMap::new();
     for m in models {
         let id = m["id"].as_str().unwrap().to_string();
         let text = m["text"].as_str().unwrap().to_string();
         let spec: GrammarSpec = serde_json::from_value(m["spec"].clone()).unwrap();
-        by_id.insert(id, (text, spec));
+        let types_hash = m["types_hash"].as_str().unwrap_or("").to_string();
+        let types_text = m["types_text"].as_str().unwrap_or("").to_string();
+        by_id.insert(id, ModelEntry { text, spec, types_hash, types_text });
     }
     let current: Arc<Mutex<Option<serde_json::Value>>> = Arc::new(Mutex::new(None));
     // watchdog: a single case normally takes microseconds; 30 s without progress is reported as a hang
@@ -160,10 +169,24 @@ pub fn violation_json(prop: &str, g: &GCtx, rule: &str, input: &str, f: &Failure
 /// run the generated-input loop for one (grammar, rule)
 pub fn run_rule(cr: &CaseRunner, g: &GCtx, e: &RuleEntry, partial: &mut Partial) {
     let prop = cr.prop;
+    run_loop(cr, g, e.rule, cr.cases, partial, &mut |input| props::check_case(prop, g, e, input), &mut |input, f| violation_json(prop, g, e.rule, input, f));
+}
+
+/// generic generated-input loop: inputs are built from `g`'s model for `rule`; `check` decides a case
+pub fn run_loop(
+    cr: &CaseRunner,
+    g: &GCtx,
+    rule: &str,
+    cases: u32,
+    partial: &mut Partial,
+    check: &mut dyn FnMut(&str) -> Result<CaseOut, Failure>,
+    to_violation: &mut dyn FnMut(&str, &Failure) -> serde_json::Value,
+) {
+    let prop = cr.prop;
     let cfg = input_cfg(prop, cr.max_len);
-    let seed = seed_bytes(cr.seed, g.ghash, fnv64(e.rule.as_bytes()) ^ fnv64(prop.as_bytes()));
+    let seed = seed_bytes(cr.seed, g.ghash, fnv64(rule.as_bytes()) ^ fnv64(prop.as_bytes()));
     let mut runner = TestRunner::new_with_rng(
-        Config { cases: cr.cases, failure_persistence: None, max_shrink_iters: 4000, max_global_rejects: 10, ..Config::default() },
+        Config { cases, failure_persistence: None, max_shrink_iters: 4000, max_global_rejects: 10, ..Config::default() },
         TestRng::from_seed(RngAlgorithm::ChaCha, &seed),
     );
     let strat = proptest::collection::vec(any::<u8>(), 0..160);
@@ -171,17 +194,18 @@ pub fn run_rule(cr: &CaseRunner, g: &GCtx, e: &RuleEntry, partial: &mut Partial)
     let stats = RefCell::new((0u64, BTreeSet::<u64>::new(), BTreeMap::<String, u64>::new(), BTreeMap::<String, u64>::new(), BTreeMap::<String, u64>::new(), Vec::<serde_json::Value>::new()));
     let last_failure: RefCell<Option<(String, Failure)>> = RefCell::new(None);
     let want_samples = partial.samples.len() < 6;
+    let check = RefCell::new(check);
     let result = runner.run(&strat, |bytes| {
-        let (input, kind) = inputs::build_input(&g.model, e.rule, &bytes, &cfg, &g.alphabet);
-        begin_case(&cr.current, &g.id, e.rule, &input);
-        let r = props::check_case(prop, g, e, &input);
+        let (input, kind) = inputs::build_input(&g.model, rule, &bytes, &cfg, &g.alphabet);
+        begin_case(&cr.current, &g.id, rule, &input);
+        let r = (check.borrow_mut())(&input);
         match r {
             Ok(out) => {
                 if !*failed.borrow() {
                     let mut s = stats.borrow_mut();
                     s.0 += 1;
                     *s.4.entry(format!("{:?}", kind)).or_insert(0) += 1;
-                    record(&mut s, g, e.rule, &input, &out, want_samples);
+                    record(&mut s, g, rule, &input, &out, want_samples);
                 }
                 Ok(())
             }
@@ -210,12 +234,13 @@ pub fn run_rule(cr: &CaseRunner, g: &GCtx, e: &RuleEntry, partial: &mut Partial)
     partial.rules += 1;
     if let Err(TestError::Fail(_, bytes)) = result {
         // re-evaluate the minimal case to get its failure record
-        let (input, _) = inputs::build_input(&g.model, e.rule, &bytes, &cfg, &g.alphabet);
-        let f = match props::check_case(prop, g, e, &input) {
+        let (input, _) = inputs::build_input(&g.model, rule, &bytes, &cfg, &g.alphabet);
+        let mut check = check.into_inner();
+        let f = match check(&input) {
             Err(f) => f,
             Ok(_) => last_failure.into_inner().map(|x| x.1).unwrap_or(Failure { msg: "failure did not reproduce".into(), expected: String::new(), observed: String::new() }),
         };
-        partial.violations.push(violation_json(prop, g, e.rule, &input, &f));
+        partial.violations.push(to_violation(&input, &f));
     }
 }
 
@@ -242,7 +267,7 @@ fn record(
     }
 }
 
-fn run(table: &'static [GrammarEntry], args: &Args, by_id: &HashMap<String, (String, GrammarSpec)>, current: Arc<Mutex<Option<serde_json::Value>>>) -> Partial {
+fn run(table: &'static [GrammarEntry], args: &Args, by_id: &HashMap<String, ModelEntry>, current: Arc<Mutex<Option<serde_json::Value>>>) -> Partial {
     let mut partial = Partial::default();
     let cr = CaseRunner { prop: &args.prop, seed: args.seed, cases: args.cases, max_len: args.max_len, current: current.clone() };
     // replay mode: one recorded case
@@ -253,12 +278,16 @@ fn run(table: &'static [GrammarEntry], args: &Args, by_id: &HashMap<String, (Str
     }
     let mut ctxs: Vec<(usize, GCtx)> = vec![];
     for (ti, ge) in table.iter().enumerate() {
-        let (text, spec) = match by_id.get(ge.id) {
+        let me = match by_id.get(ge.id) {
             Some(x) => x,
             None => continue,
         };
-        match GCtx::new(ge.id, text, spec) {
-            Ok(g) => ctxs.push((ti, g)),
+        match GCtx::new(ge.id, &me.text, &me.spec) {
+            Ok(mut g) => {
+                g.types_hash = me.types_hash.clone();
+                g.types_text = me.types_text.clone();
+                ctxs.push((ti, g))
+            }
             Err(_) => {
                 *partial.skipped.entry("oracle_shape_error".into()).or_insert(0) += 1;
             }
